@@ -1964,9 +1964,11 @@ class SetTo(Action, HasDefaultDebugInfo):
     def debug_lookup(self, tag: DTAG):
         if tag == DTAG.NAME:
             if self.value_expr.is_literal():
-                return "set into {} {}".format(ProgramData.lookup(self.into_storage, DTAG.NAME), self.value_expr.get_literal_result())
-            else:
-                return "set into {}".format(ProgramData.lookup(self.into_storage, DTAG.NAME))
+                try:
+                    return "set into {} {}".format(ProgramData.lookup(self.into_storage, DTAG.NAME), self.value_expr.get_literal_result())
+                except (ArithmeticError, ValueError):
+                    pass # no value to show (e.g. division by zero)
+            return "set into {}".format(ProgramData.lookup(self.into_storage, DTAG.NAME))
         elif tag == DTAG.STRICT_TIMING_REASON:
             if not self.is_timing_strict():
                 return None
@@ -2507,9 +2509,10 @@ class SumIntegerExpr(MathIntegerExpr):
         total = self.children[0].get_literal_result()
         for operand, operator in itertools.islice(zip(self.children, self.negate), 1, None):
             if operator:
-                total -= operand
+                total -= operand.get_literal_result()
             else:
-                total += operand
+                total += operand.get_literal_result()
+        return total
 
     def __eq__(self, other):
         if not isinstance(other, SumIntegerExpr): return False
@@ -2528,12 +2531,14 @@ class MulIntegerExpr(MathIntegerExpr):
     def get_literal_result(self):
         total = self.children[0].get_literal_result()
         for operand, operator in itertools.islice(zip(self.children, self.divide), 1, None):
+            value = operand.get_literal_result()
             if operator == MulIntegerExprOp.DIV:
-                total //= operand
+                total //= value
             elif operator == MulIntegerExprOp.MOD:
-                total %= operand
+                total %= value
             else:
-                total *= operand
+                total *= value
+        return total
 
     def __eq__(self, other):
         if not isinstance(other, MulIntegerExpr): return False
@@ -2594,6 +2599,9 @@ class BitShiftIntegerExpr(MathIntegerExpr):
     def get_literal_result(self):
         left = self.left.get_literal_result()
         right = self.right.get_literal_result()
+
+        if not 0 <= right < 64:
+            raise ValueError("shift count out of range")
 
         if self.towards_left:
             return left << right
